@@ -103,16 +103,27 @@ pub struct Cfg {
     /// tolerance = 10^-tol_exp
     pub tol_exp: u8,
     pub batches: usize,
+    /// "many components" stratum: k in {101, 128} on a few hundred low-dimensional points, 2-3 iterations,
+    /// one restart (GMM: reg_covar 1e-2, tolerance 1e6 so that the second EM step counts as converged).
+    /// Size thresholds (k > 100) can hide a different code path.
+    #[serde(default)]
+    pub many: bool,
 }
 
 impl Cfg {
     fn observations(&self) -> Array2<f64> {
+        if self.many {
+            return data::uniform(self.data_seed, self.n, self.p, 40.0);
+        }
         match self.shape {
             Shape::Blobs => data::blobs(self.data_seed, self.n, self.p, self.k + 1, 0.9),
             Shape::Lattice => data::lattice(self.data_seed, self.n, self.p, 4),
         }
     }
     fn queries(&self) -> Array2<f64> {
+        if self.many {
+            return data::uniform(self.data_seed ^ 0x77, 64, self.p, 40.0);
+        }
         match self.shape {
             Shape::Blobs => data::blobs(self.data_seed ^ 0x77, 257, self.p, self.k + 1, 1.5),
             Shape::Lattice => data::lattice(self.data_seed ^ 0x77, 257, self.p, 5),
@@ -228,6 +239,19 @@ fn run_gmm(c: &Cfg, out: &mut Out) {
     let q = c.queries();
     let ds = DatasetBase::from(x);
     let res = match c.mode {
+        Mode::GmmDefaults if c.many => GaussianMixtureModel::params(c.k)
+            .n_runs(1)
+            .max_n_iterations(3)
+            .tolerance(1e6)
+            .reg_covariance(1e-2)
+            .fit(&ds),
+        _ if c.many => GaussianMixtureModel::params_with_rng(c.k, Xoshiro256Plus::seed_from_u64(c.rng_seed))
+            .n_runs(1)
+            .max_n_iterations(3)
+            .tolerance(1e6)
+            .reg_covariance(1e-2)
+            .init_method(if c.mode == Mode::GmmKMeans { GmmInitMethod::KMeans } else { GmmInitMethod::Random })
+            .fit(&ds),
         Mode::GmmDefaults => GaussianMixtureModel::params(c.k).fit(&ds),
         _ => GaussianMixtureModel::params_with_rng(c.k, Xoshiro256Plus::seed_from_u64(c.rng_seed))
             .n_runs(c.n_runs as u64)
@@ -296,7 +320,13 @@ impl Runnable for Cfg {
             obs.class_if(self.l1, "l1_distance");
             obs.class_if(self.n_runs > 1, "several_restarts");
         }
-        obs.class_if(self.shape == Shape::Lattice, "lattice_tied_distances");
+        obs.class_if(self.many, "many_components_k_over_100");
+        obs.class_if(self.many && self.is_gmm(), "gmm_many_components");
+        obs.class_if(
+            !self.many && ((self.n + 1).is_power_of_two() || self.n.is_power_of_two() || self.n.saturating_sub(1).is_power_of_two()),
+            "n_at_power_of_two_boundary",
+        );
+        obs.class_if(self.shape == Shape::Lattice && !self.many, "lattice_tied_distances");
         obs.class_if(self.shape == Shape::Blobs, "gaussian_blobs");
         // measured through the probing distance: how many distinct workers ran the assignment loop
         let mut max_workers = 0u32;
@@ -318,6 +348,9 @@ impl Runnable for Cfg {
         // label is conservative — rayon splits any Zip longer than one row whenever the pool has
         // more than one thread, and pools of 2..16 threads are always part of a case.
         let conservative = !probed && matches!(self.mode, Mode::Defaults | Mode::GmmKMeans | Mode::GmmDefaults) && self.n >= 2000;
+        // many-components GMM cases (a few hundred rows, linfa's own L2Dist): counted as non-trivial for the size
+        // threshold they cross (k > 100), not for an observed split
+        obs.nontrivial_if(self.many);
         obs.class_if(conservative, "split_assumed_from_size");
         obs.nontrivial_if((probed && max_workers >= 2) || conservative);
     }
@@ -327,7 +360,7 @@ impl Runnable for Cfg {
     }
 }
 
-pub fn strategy(tier: Tier) -> impl Strategy<Value = Cfg> {
+fn regular(tier: Tier) -> impl Strategy<Value = Cfg> {
     let max_n = tier.pick(6000usize, 6000usize);
     let mode = prop_oneof![
         6 => Just(Mode::Fit),
@@ -342,19 +375,24 @@ pub fn strategy(tier: Tier) -> impl Strategy<Value = Cfg> {
     (
         (mode, shape, init, any::<bool>()),
         (any::<u64>(), any::<u64>()),
-        (any::<u16>(), 1usize..=6, 2usize..=8),
+        (any::<u16>(), 1usize..=6, 2usize..=8, 0u8..8),
         (1usize..=3, 2u64..=25, 2u8..=6, 2usize..=6),
     )
-        .prop_map(move |((mode, shape, init, l1), (data_seed, rng_seed), (nn, p, k), (n_runs, max_iter, tol_exp, batches))| {
+        .prop_map(move |((mode, shape, init, l1), (data_seed, rng_seed), (nn, p, k, snap), (n_runs, max_iter, tol_exp, batches))| {
             let gmm = matches!(mode, Mode::GmmKMeans | Mode::GmmRandom | Mode::GmmDefaults);
-            let n = 2000 + idx(nn, max_n - 2000 + 1);
+            let mut n = 2000 + idx(nn, max_n - 2000 + 1);
+            // a quarter of the cases sit exactly at / next to a power of two (chunking thresholds)
+            if snap < 2 {
+                let pow = if n < 3072 { 2048 } else { 4096 };
+                n = pow - 1 + (nn as usize % 3);
+            }
             Cfg {
                 mode,
                 // a lattice is degenerate for a full-covariance mixture (singular clusters): blobs only
                 shape: if gmm { Shape::Blobs } else { shape },
                 data_seed,
                 rng_seed,
-                n: if gmm { 2000 + (n - 2000) / 4 } else { n },
+                n: if gmm && snap >= 2 { 2000 + (n - 2000) / 4 } else if gmm { 2047 + (nn as usize % 3) } else { n },
                 p: if gmm { p.min(3) } else { p },
                 k: if gmm { k.min(4) } else { k },
                 init,
@@ -363,6 +401,75 @@ pub fn strategy(tier: Tier) -> impl Strategy<Value = Cfg> {
                 max_iter: if gmm { 40 + max_iter } else { max_iter },
                 tol_exp: if gmm { tol_exp.min(3) } else { tol_exp },
                 batches,
+                many: false,
             }
         })
+}
+
+/// k in {101, 128}: GMM (k-means init, random init, builder defaults) and K-means with Random / KMeans++ init.
+fn many_components() -> impl Strategy<Value = Cfg> {
+    let mode = prop_oneof![
+        3 => Just(Mode::GmmKMeans),
+        2 => Just(Mode::GmmDefaults),
+        1 => Just(Mode::GmmRandom),
+        2 => Just(Mode::Fit),
+    ];
+    let init = prop_oneof![Just(Init::Random), Just(Init::PlusPlus)];
+    (mode, init, any::<u64>(), any::<u64>(), any::<bool>(), 0usize..=120, 2usize..=3, 2u64..=3).prop_map(
+        |(mode, init, data_seed, rng_seed, big, extra, p, max_iter)| Cfg {
+            mode,
+            shape: Shape::Blobs,
+            data_seed,
+            rng_seed,
+            n: 200 + extra,
+            p,
+            k: if big { 128 } else { 101 },
+            init,
+            l1: false,
+            n_runs: 1,
+            max_iter,
+            tol_exp: 3,
+            batches: 2,
+            many: true,
+        },
+    )
+}
+
+pub fn strategy(tier: Tier) -> impl Strategy<Value = Cfg> {
+    prop_oneof![
+        5 => regular(tier).boxed(),
+        1 => many_components().boxed(),
+    ]
+}
+
+/// Fixed "many components" configurations that are part of every run (the random stratum above adds
+/// seed-dependent ones): the size threshold k > 100 must be crossed by GMM and K-means in every run.
+pub fn threshold_cases() -> Vec<Cfg> {
+    let mk = |mode: Mode, init: Init, k: usize, n: usize, p: usize, s: u64| Cfg {
+        mode,
+        shape: Shape::Blobs,
+        data_seed: 0x5eed_0000 + s,
+        rng_seed: 7 + s,
+        n,
+        p,
+        k,
+        init,
+        l1: false,
+        n_runs: 1,
+        max_iter: 3,
+        tol_exp: 3,
+        batches: 2,
+        many: true,
+    };
+    vec![
+        mk(Mode::GmmKMeans, Init::PlusPlus, 101, 220, 2, 1),
+        mk(Mode::GmmKMeans, Init::PlusPlus, 128, 260, 2, 2),
+        mk(Mode::GmmDefaults, Init::PlusPlus, 101, 230, 3, 3),
+        mk(Mode::GmmDefaults, Init::PlusPlus, 128, 257, 2, 4),
+        mk(Mode::GmmRandom, Init::PlusPlus, 101, 255, 2, 5),
+        mk(Mode::Fit, Init::PlusPlus, 128, 511, 2, 6),
+        mk(Mode::Fit, Init::Random, 101, 513, 3, 7),
+        // the last size at which the threshold is not crossed, for contrast
+        mk(Mode::GmmKMeans, Init::PlusPlus, 100, 220, 2, 8),
+    ]
 }
